@@ -1373,7 +1373,7 @@ def glue_cases(run):
                     carried = script['res'][1]
                 ops_lit.append(lit); raw.append(['recv', res])
             else:
-                kind = rng.choice(['none', 'frame', 'dict', 'empty', 'lazynone', 'lazyframe', 'lazydict'])
+                kind = rng.choice(['none', 'frame', 'dict', 'empty', 'lazynone', 'lazyframe', 'lazydict', 'lazyempty'])
                 pay = rng.randint(1, 99)
                 d = [(t, rng.randint(1, 99)) for t in rng.sample(['main', 'x', 'y'], rng.randint(1, 2))]
                 mk = lambda p: Frame({'p': p})
@@ -1389,6 +1389,8 @@ def glue_cases(run):
                     ret_val, lit_r = (lambda: None), 'PLazyNone'
                 elif kind == 'lazyframe':
                     ret_val, lit_r = (lambda pay=pay: mk(pay)), '(PLazyFrame %d)' % pay
+                elif kind == 'lazyempty':
+                    ret_val, lit_r = (lambda: {}), '(PLazyDict [])'
                 else:
                     ret_val, lit_r = (lambda d=d: {t: mk(p) for t, p in d}), '(PLazyDict %s)' % listl(pairl(strl(t), zl(p)) for t, p in d)
                 flt.process = lambda frames, rv=ret_val: rv
@@ -1396,6 +1398,7 @@ def glue_cases(run):
                 script['called'] = callable(pf) and rng.random() < 0.7
                 script['ret'] = rng.choice([None, rng.randint(0, 30), rng.randint(0, 30)])
                 script['state'] = 'nocall'
+                script.pop('cb_result', None)
                 ok = mq.send(pf, 10)
                 st = script['state']
                 call = None if st == 'nocall' else [None if st is None else [st.msg_id, 0 if st.balanced is False else 1 if st.balanced is True else int(st.balanced)], callable(pf)]
@@ -1410,6 +1413,10 @@ def glue_cases(run):
                 # oracle: the result contract
                 if kind == 'none' and st != 'nocall':
                     run.violation('contract:none-sent', 'process() returned None but the sender was called', dict(ops=raw))
+                # a deferred result that evaluates to {} is an EMPTY SET to deliver, not "nothing" (only None removes the frame)
+                if kind == 'lazyempty' and script['called'] and script.get('cb_result') is None:
+                    run.violation('contract:deferred-empty-dropped', 'process() returned a callable that evaluates to {}; what reached the sender is None (frame dropped) instead of an empty set',
+                                  dict(sync=sync, ops=raw))
                 # a deferred result that turns out to be None publishes nothing: the sender's reply is then its OLD low-water mark, not
                 # an acknowledgement, and must not become the id the next recv() asks for (after an upstream restart that id is
                 # delivered a second time)
